@@ -64,6 +64,7 @@ def _eval(res, name, m, fn, x, v, clk, cache, opts=None):
     o = _call(f, x)
     case = {'module': name, 'getter': fn, 'number': x, 'canonical': v, 'clock': clk.isoformat() if clk else None,
             'options': {k: core.enc(val) for k, val in opts.items()}}
+    base_fn = fn
     if opts:
         fn = fn + '(' + ','.join(sorted(opts)) + ')'
     rank = [0, len(x), x]
@@ -75,11 +76,11 @@ def _eval(res, name, m, fn, x, v, clk, cache, opts=None):
     if o[0] == 'verr':
         return 0
     r = o[1]
-    bad = T.kind_ok(name, fn, r)
+    bad = T.kind_ok(name, base_fn, r)
     if bad:
         res.viol(ID, 'wrong-kind', name, fn, case, 'returned %r' % (r,), bad, excinfo=type(r).__name__, devclass=ln, rank=rank)
         return 1
-    if fn == 'get_birth_date' and isinstance(r, datetime.date):
+    if base_fn == 'get_birth_date' and isinstance(r, datetime.date):
         fields = T.DATE_FIELDS.get(name)
         if fields is not None and x == v:
             yy, mm, dd = fields(v)
@@ -112,11 +113,11 @@ def _eval(res, name, m, fn, x, v, clk, cache, opts=None):
                 if o2[0] == 'ok' and o2[1] is not None and o2[1] != getattr(r, attr):
                     res.viol(ID, 'date-disagrees-with-' + attr, name, fn, case,
                              'date %s but %s() = %r' % (r.isoformat(), other, o2[1]), 'agreement', devclass=ln, rank=rank)
-    exp = T.TYPE_BY_LENGTH.get((name, fn))
+    exp = T.TYPE_BY_LENGTH.get((name, base_fn))
     if exp is not None and x == v and len(v) in exp and r != exp[len(v)]:
         res.viol(ID, 'type-disagrees-with-length', name, fn, case, '%s(%r) = %r' % (fn, v, r), exp[len(v)],
                  devclass=ln, rank=rank)
-    if fn == 'split':
+    if base_fn == 'split':
         joined = ''.join(r)
         targets = {v}
         if opts.get('convert'):
